@@ -39,6 +39,8 @@ def strategy(tier):
         "user": st.lists(st.sampled_from(["try", "show"]), max_size=3),
         "recover": st.sampled_from(["try", "try", "show"]),
         "post": st.lists(st.sampled_from(["try", "show"]), max_size=2),
+        # a fifth of the cases are interleaved at file-operation granularity too
+        "file_yields": st.sampled_from([False, False, False, False, True]),
     })
 
 
@@ -50,7 +52,8 @@ def _cmd(sim, kind):
 
 def run_case(case):
     scn = case["scn"]
-    with H.Sim(scn, schedule=case["schedule"], snapshots=True) as sim:
+    with H.Sim(scn, schedule=case["schedule"], snapshots=True, file_yields=case.get("file_yields", False),
+               max_steps=30000 if case.get("file_yields") else 8000) as sim:
         w = sim.w
         rounds = []  # observations at the end of each submitter round
 
@@ -199,6 +202,8 @@ def run_case(case):
             if case["post"]:
                 res["classes"].append("post_completion_commands")
 
+        if case.get("file_yields"):
+            res["classes"].append("file_granularity")
         res["nontrivial"] = sim.recovery_rounds >= 1 or len(rounds) >= 3
         if len(rounds) >= 3:
             res["classes"].append("submitter_rounds>=3")
